@@ -121,6 +121,9 @@ def make_inputs(tier):
         21: ("buf", b"b" * 300 + b"YYYY"),
         22: ("buf", b"aaaXYZW bbbbYYYY ccQRST ababXYZV"),
         23: ("fill", (b"c" * 36 + b"QRST", 28000, b"c" * 22 + b"QRST")),
+        25: ("buf", b"x" + b"a" * 3000),                 # $g needs more than RE_MAX_FIBERS fibers: ERROR_TOO_MANY_RE_FIBERS, pool at 1024
+        26: ("buf", b"x" + b"a" * 186 + b"b"),           # $g matches with 1021 fibers (the most this family reaches without the error)
+        27: ("buf", b"hello world abbb. aaaXYZW abc"),   # ordinary regexps
         24: ("fill", (b"ab" * 18 + b"XYZV", 28000, b"ab" * 11 + b"XYZV")),
     }
     return inputs
@@ -190,6 +193,14 @@ rule lazy { strings: $l = /(c{1,6}?){1,6}?QRST/ condition: $l }
 rule hexalt { strings: $h = { (61 | 62) [0-40] (61 62 | 62) 58 59 5A 56 } condition: $h }
 rule target { strings: $t = /(b{1,10}){1,10}(b{1,10}){1,10}YYYY/ condition: $t }
 '''
+# (a separate rule set: $g is very slow on the megabyte of 'a' runs the rules above are scanned with)
+RE_LIMIT_RULES = r'''
+rule target { strings: $t = /(b{1,10}){1,10}(b{1,10}){1,10}YYYY/ condition: $t }
+rule noisy { strings: $n = /(a{1,6}){1,6}XYZW/ condition: $n }
+rule hungry { strings: $g = /x(a|aa){1,1000}b/ condition: $g }
+rule ordinary { strings: $o = /he+l+o [a-z]+/ $p = /ab+[^b]/ condition: any of them }
+rule cond_matches { condition: xs matches /a+b/ }
+'''
 
 
 def rules_text(rs):
@@ -199,7 +210,7 @@ def rules_text(rs):
     if rs is False:
         return RULES
     if rs[0] == "re":
-        return RE_RULES
+        return RE_LIMIT_RULES if len(rs) > 1 else RE_RULES
     return many_rules(rs[1], rs[2], rs[3])
 
 
@@ -436,6 +447,10 @@ def run(chk):
         ops += [dict(kind="scan", inp=ni, script=[(0, "a")], plan=[], m="scan:%d:0=a:-" % ni, h=scan_lines(inputs[ni], [(0, "a")], [])), sc(21), dst]
         hists.append(("refiberslong%d_in%d" % (j, ni), ops, ("re",)))          # (not repeated under ASan: 8 scans of 1.1 MB)
         hists.append(("refibers%d_in%d" % (j, ni), [sc(22), sc(ni), sc(21), dst], ("re",)))
+    # a scan that ends with ERROR_TOO_MANY_RE_FIBERS leaves the pool full (fiber_count == RE_MAX_FIBERS, all free): every
+    # later scan must still be able to run its regexps; likewise after a scan that came within 3 fibers of the limit
+    hists.append(("refiberlimit0", [sc(27), sc(25), sc(27), sc(22), sc(21), sc(25), sc(25), sc(27), sc(26), dst], ("re", "limit")))
+    hists.append(("refiberlimit1", [sc(26), sc(27), sc(26), sc(21), sc(27), sc(25), sc(26), dst], ("re", "limit")))
     # external variable named like a module: scan twice
     for j in range(2):
         r = chk.rng.fork()
@@ -537,6 +552,7 @@ def run(chk):
         ep_before = "-"
         dead = False
         after_proc = False
+        scan_error_seen = False      # a scan failed inside match verification (too many fibers / matches): last_error_string is set
         for oi, (o, mt) in enumerate(zip(ops, toks)):
             evals += 1
             mtrace, mstate = mt.split(" @ ")
@@ -565,6 +581,8 @@ def run(chk):
                     continue
                 msgs, rc = parse_scan(res[pos])
                 pos += 1
+                if rc not in (0, 26, 28, 61) and not any(t[:1] in "IDCMNF" for t in msgs.split(";") if t):
+                    scan_error_seen = True
                 want = "T%s:%d" % (intern.msgs(msgs), rc)
                 is_dirty = False
                 if o["kind"] == "scan":
@@ -606,7 +624,10 @@ def run(chk):
             pos += 1
             diffs = [k for k in ("ep", "fs", "fl", "to", "nb", "le", "d", "objs") if ic[k] != ms[k] and not (k == "d" and ms["susp"] == "1")
                      # (the model does not follow the process scan itself: entry point, file size, pool and last error it leaves are not predicted)
-                     and not (after_proc and k in ("ep", "fs", "le"))]
+                     and not (after_proc and k in ("ep", "fs", "le"))
+                     # (the model sets last_error only for a scan stopped at the too-many-matches message; the code also
+                     #  sets it when match verification itself fails, e.g. ERROR_TOO_MANY_RE_FIBERS: allowed once such a scan was seen)
+                     and not (k == "le" and ic["le"] == "1" and scan_error_seen)]
             if ic["pool"] != ms["pool"] and ms["susp"] == "0" and not hid.startswith("abandon") and not after_proc:     # (a waiting scan has allocated some of its fibers already)
                 diffs.append("pool")
             if not ic["pool_all_free"]:
